@@ -410,6 +410,14 @@ func (sel *Selection) endEdit(r NodeRequest, bubble bool) error {
 }
 
 func (sel *Selection) Delete() (err error) {
+	if sel.parent == nil {
+		// there is no node to ask to remove the root of the data
+		return fmt.Errorf("%w. %s is the root of the data and cannot be deleted", fc.BadRequestError, sel.Path.Meta.Ident())
+	}
+	if leaf, isLeaf := sel.Path.Meta.(meta.Leafable); isLeaf {
+		// a selection on a leaf: deleting it is clearing the leaf in the container that holds it
+		return sel.parent.ClearField(leaf)
+	}
 
 	// allow children to recieve indication their parent is being deleted by
 	// sending node request w/delete=true
